@@ -193,7 +193,7 @@ Qed.
 
 Lemma xdrop_I d : dI0 E d ->
   res_I E (do (n, d0) <- pop_i32 d; if n <? 0 then None else
-           do it <- nth_error (d_es d0) (Z.to_nat n); ok (d_remove it (set_es d0 (remove_nth (Z.to_nat n) (d_es d0))))).
+           do it <- nth_error (d_es d0) (sidx n (d_es d0)); ok (d_remove it (set_es d0 (remove_nth (sidx n (d_es d0)) (d_es d0))))).
 Proof.
   intros [U H]. opensI. eapply dI0_intro. apply dI_remove. change (i :: E) with ([i] ++ E).
   match goal with X : nth_error _ _ = Some _ |- _ => destruct (remove_nth_meq _ _ _ X) as [M S] end. apply dI_hold; eassumption.
@@ -211,7 +211,7 @@ Proof.
   intros [U H]. opensI. eapply dI0_intro. apply dI_push; [eassumption|]. apply known_es. eapply nth_error_In; eauto.
 Qed.
 Lemma pickn_I d : dI0 E d ->
-  res_I E (do (n, d0) <- pop_i32 d; if n <? 0 then None else do it <- nth_error (d_es d0) (Z.to_nat n); ok (push it d0)).
+  res_I E (do (n, d0) <- pop_i32 d; if n <? 0 then None else do it <- nth_error (d_es d0) (sidx n (d_es d0)); ok (push it d0)).
 Proof.
   intros [U H]. opensI. eapply dI0_intro. apply dI_push; [eassumption|]. apply known_es. eapply nth_error_In; eauto.
 Qed.
@@ -237,7 +237,7 @@ Proof.
   intros [U H]. opensI. match goal with X : roll _ _ = Some _ |- _ => destruct (roll_meq _ _ _ X) as [M S] end. eapply dI0_intro. apply dI_set_es; eassumption.
 Qed.
 Lemma rolln_I d : dI0 E d ->
-  res_I E (do (n, d0) <- pop_i32 d; if n <? 0 then None else do es <- roll (Z.to_nat n) (d_es d0); ok (set_es d0 es)).
+  res_I E (do (n, d0) <- pop_i32 d; if n <? 0 then None else do es <- roll (sidx n (d_es d0)) (d_es d0); ok (set_es d0 es)).
 Proof.
   intros [U H]. opensI. match goal with X : roll _ _ = Some _ |- _ => destruct (roll_meq _ _ _ X) as [M S] end. eapply dI0_intro. apply dI_set_es; eassumption.
 Qed.
@@ -246,7 +246,7 @@ Proof.
   intros [U H]. opensI. match goal with X : reverse_top _ _ = Some _ |- _ => destruct (reverse_top_meq _ _ _ X) as [M S] end. eapply dI0_intro. apply dI_set_es; eassumption.
 Qed.
 Lemma revn_I d : dI0 E d ->
-  res_I E (do (n, d0) <- pop_i32 d; if n <? 0 then None else do es <- reverse_top (Z.to_nat n) (d_es d0); ok (set_es d0 es)).
+  res_I E (do (n, d0) <- pop_i32 d; if n <? 0 then None else do es <- reverse_top (sidx n (d_es d0)) (d_es d0); ok (set_es d0 es)).
 Proof.
   intros [U H]. opensI. match goal with X : reverse_top _ _ = Some _ |- _ => destruct (reverse_top_meq _ _ _ X) as [M S] end. eapply dI0_intro. apply dI_set_es; eassumption.
 Qed.
